@@ -303,6 +303,7 @@ def run(ctx):
 
 
 SELFTEST = [
+    ('derivint-zeros-for-empty-range', 'pyerrors/integrate.py', '    derivint = []\n', '    derivint = []\n    if bval[0] == bval[1]:\n        derivint = [0.0] * (len(pobs) + len(bobs))\n', 'C09-D2'),
     ('start-from-data', 'pyerrors/roots.py', '    root = scipy.optimize.fsolve(func, guess, d_val)', '    if guess is None:\n        guess = d_val.ravel()[0]\n    root = scipy.optimize.fsolve(func, guess, d_val)', 'C09-D1'),
     ('benign-start-none-default', 'pyerrors/roots.py', 'def find_root(d, func, guess=1.0, **kwargs):', 'def find_root(d, func, guess=None, **kwargs):\n    if guess is None:\n        guess = 1.0', 'BENIGN'),
     ('derivative-integrals-lose-options', 'pyerrors/integrate.py', "derivint.append(squad(ifunc, bounds[0], bounds[1], **ikwargs)[0])", "derivint.append(squad(ifunc, bounds[0], bounds[1])[0])", 'C09-D2'),
